@@ -105,4 +105,43 @@ mod c01v {
         let back = MD::new(<IpAddr as DeserializeValue>::deserialize(&typ, Some(FrameSlice::new_borrowed(&buf[5..]))));
         assert!(matches!(&*back, Ok(b) if *b == a), "decode(encode(a)) == a");
     });
+    // varint: the caller's two's-complement big-endian bytes, verbatim, behind [int n]
+    harness!(c01_varint_borrowed, 7, {
+        use crate::value::CqlVarintBorrowed;
+        let bytes: [u8; 3] = kani::any();
+        let prefix: u8 = kani::any();
+        let v = CqlVarintBorrowed::from_signed_bytes_be_slice(&bytes[..]);
+        let buf = cell::<CqlVarintBorrowed<'_>>(&v, NativeType::Varint, prefix);
+        assert_cell(&buf, prefix, &bytes, 3);
+    });
+    // decimal: [int 4 + n] ++ <scale: [int]> ++ the unscaled value's bytes
+    harness!(c01_decimal_borrowed, 9, {
+        use crate::value::CqlDecimalBorrowed;
+        let bytes: [u8; 2] = kani::any();
+        let scale: i32 = kani::any();
+        let prefix: u8 = kani::any();
+        let v = CqlDecimalBorrowed::from_signed_be_bytes_slice_and_exponent(&bytes[..], scale);
+        let buf = cell::<CqlDecimalBorrowed<'_>>(&v, NativeType::Decimal, prefix);
+        let sc = scale.to_be_bytes();
+        let want: [u8; 6] = [sc[0], sc[1], sc[2], sc[3], bytes[0], bytes[1]];
+        assert_cell(&buf, prefix, &want, 6);
+    });
+    // duration: [int n] ++ vint(months) ++ vint(days) ++ vint(nanoseconds); the three vints decode back to the three
+    // fields and use up the cell exactly (the vint codec itself is proved over all i64 in frame/types).
+    // (All three fields symbolic at once cost CBMC 30 GB - symbolic write offsets; one symbolic field per harness,
+    //  placed where the offsets before it are concrete.)
+    fn duration_case(months: i32, days: i32, nanoseconds: i64) {
+        use crate::frame::types::vint_decode;
+        use crate::value::CqlDuration;
+        let prefix: u8 = kani::any();
+        let buf = cell::<CqlDuration>(&CqlDuration { months, days, nanoseconds }, NativeType::Duration, prefix);
+        assert!(buf.len() >= 5 + 3 && buf[0] == prefix && buf[1] == 0 && buf[2] == 0 && buf[3] == 0 && buf[4] as usize == buf.len() - 5, "[int n] = length of the three vints");
+        let mut s = &buf[5..];
+        assert!(vint_decode(&mut s).unwrap() == months as i64);
+        assert!(vint_decode(&mut s).unwrap() == days as i64);
+        assert!(vint_decode(&mut s).unwrap() == nanoseconds);
+        assert!(s.is_empty(), "nothing after the three vints");
+    }
+    harness!(c01_duration_nanos, 12, { duration_case(-3, 7, kani::any()); });
+    harness!(c01_duration_months, 12, { duration_case(kani::any(), 0, 0); });
 }
